@@ -354,8 +354,7 @@ def _seq_term(S: Scope, e: ast.AST, at, depth=0):
     atom identified by that set of definitions (so two reads between which it is not re-bound are equal)."""
     if depth > 12:
         return (("expr", ast.dump(e)), ())
-    while isinstance(e, ast.Call) and isinstance(e.func, ast.Name) and e.func.id in ("tuple", "list") and len(e.args) == 1:
-        e = e.args[0]
+    e = _unwrap_copy(e)
     if isinstance(e, ast.BinOp) and isinstance(e.op, ast.Add):
         b, ex = _seq_term(S, e.left, at, depth + 1)
         rb, rex = _seq_term(S, e.right, at, depth + 1)
@@ -373,6 +372,46 @@ def _seq_term(S: Scope, e: ast.AST, at, depth=0):
                             return _seq_term(S, ve, d, depth + 1)
         return (("name", e.id, frozenset(id(d) for d in defs)), ())
     return (("expr", ast.dump(e)), ())
+
+
+def _unwrap_copy(v: ast.AST) -> ast.AST:
+    """tuple(x) / list(x) / [e for e in x] / tuple(e for e in x) -> x (order-preserving element-wise copies)"""
+    for _ in range(6):
+        if isinstance(v, ast.Call) and isinstance(v.func, ast.Name) and v.func.id in ("tuple", "list") and len(v.args) == 1:
+            v = v.args[0]
+        elif isinstance(v, (ast.ListComp, ast.GeneratorExp)) and len(v.generators) == 1 and not v.generators[0].ifs \
+                and isinstance(v.elt, ast.Name) and isinstance(v.generators[0].target, ast.Name) and v.elt.id == v.generators[0].target.id:
+            v = v.generators[0].iter
+        else:
+            break
+    return v
+
+
+def _rebuilt_from_other_order(v: ast.AST, rname: str) -> Optional[str]:
+    """A positive reason why the sequence-valued expression `v` does not start with the elements of `rname` in their order: it is
+    produced by filtering / re-ordering ANOTHER iterable (comprehension over something else, sorted/reversed, set algebra)."""
+    while isinstance(v, ast.Call) and isinstance(v.func, ast.Name) and v.func.id in ("tuple", "list") and len(v.args) == 1:
+        v = v.args[0]
+    if isinstance(v, ast.Call) and isinstance(v.func, ast.Name) and v.func.id in ("sorted", "reversed", "set", "frozenset"):
+        return f"with `{v.func.id}(..)` (another order)"
+    if isinstance(v, ast.BinOp) and isinstance(v.op, (ast.BitOr, ast.BitAnd, ast.Sub, ast.BitXor)):
+        return "by set algebra (no order)"
+    if isinstance(v, (ast.ListComp, ast.GeneratorExp, ast.SetComp)):
+        if isinstance(v, ast.SetComp):
+            return "as a set (no order)"
+        it = v.generators[0].iter
+        while isinstance(it, ast.Call) and isinstance(it.func, ast.Name) and it.func.id in ("tuple", "list", "iter") and len(it.args) == 1:
+            it = it.args[0]
+        lead = it
+        while isinstance(lead, ast.BinOp) and isinstance(lead.op, ast.Add):
+            lead = lead.left
+        if isinstance(lead, ast.Name) and lead.id == rname and not v.generators[0].ifs and len(v.generators) == 1 \
+                and isinstance(v.elt, ast.Name) and isinstance(v.generators[0].target, ast.Name) and v.elt.id == v.generators[0].target.id:
+            return None         # an element-wise copy of R (+ extension): still starts with R
+        if isinstance(lead, ast.Name) and lead.id == rname:
+            return None if not v.generators[0].ifs else f"by filtering `{ast.unparse(it)}` (elements of `{rname}` may drop out)"
+        return f"in the order of `{ast.unparse(it)}` (a comprehension over another iterable; `{rname}` only takes part in its filter)"
+    return None
 
 
 def _is_prefix_of(S: Scope, M: SlotModel, R: ast.Name, listname: str) -> Tuple[Optional[bool], str]:
@@ -393,11 +432,15 @@ def _is_prefix_of(S: Scope, M: SlotModel, R: ast.Name, listname: str) -> Tuple[O
                 if did in src_defs:
                     continue
                 d = by_id.get(did)
-                v = d.value if isinstance(d, ast.Assign) else None
+                v = _unwrap_copy(d.value) if isinstance(d, ast.Assign) else None
                 if isinstance(v, ast.BinOp) and isinstance(v.op, ast.Add) and isinstance(v.left, ast.Name) and v.left.id == R.id:
                     continue
                 old = False if isinstance(v, ast.BinOp) and any(isinstance(x, ast.Name) and x.id == R.id for x in ast.walk(v)) else None
                 why = f"`{norm(d) if d is not None else '?'}` does not extend `{R.id}` on the right"
+                rebuilt = _rebuilt_from_other_order(d.value, R.id) if isinstance(d, ast.Assign) else None
+                if rebuilt:
+                    old = False
+                    why = f"`{norm(d)}` re-builds the sequence {rebuilt}, so `{R.id}` is no longer its leading part"
                 break
     if old is not None:
         return old, why
@@ -439,6 +482,9 @@ def _is_prefix_of(S: Scope, M: SlotModel, R: ast.Name, listname: str) -> Tuple[O
             continue
         if any(piece == tr for piece in ta[1]):
             return False, f"`{ast.unparse(a)}` puts `{ast.unparse(r)}` behind other names"
+        rebuilt = _rebuilt_from_other_order(a, r.id) if isinstance(r, ast.Name) else None
+        if rebuilt:
+            return False, f"`{ast.unparse(a)}` builds the sequence {rebuilt}, so `{r.id}` is not its leading part"
         verdict = None
         why = f"`{ast.unparse(r)}` vs `{ast.unparse(a)}`: no common origin found"
     return (True, "; ".join(notes)) if verdict else (None, why)
